@@ -364,6 +364,10 @@ class SafeLearner(Learner):
             if self._pred_format.endswith('*'):
                 pred = list(pred.values())[0]
 
+            if self._pred_format == 'PM':
+                #a column-major pmf has one column per action (see first_row)
+                pred = list(zip(*pred))
+
             if self._pred_format[:2] == 'PM':
                 A, P = list(map(list, zip(*map(self._rng.choicew,actions, pred))))
 
